@@ -378,5 +378,27 @@ int main(int argc, char** argv)
     prop.id = "C04";
     prop.gen = genCase;
     prop.run = runCase;
+    // coverage-guided mode: version != 0 (a CMP frame), payload type bytes != 0 (a message, not padding); every other field value is
+    // a legal wire value; bounded work
+    prop.normalize = [](Case& c) {
+        boundHistory(c.prior, 40, 200000);
+        if (c.version == 0)
+            c.version = 1;
+        if (c.msgs.size() > 10)
+            c.msgs.resize(10);
+        for (auto& m : c.msgs)
+        {
+            if (m.ptype == 0)
+                m.ptype = 0x20;
+            if (m.variant > 4)
+                m.variant = static_cast<uint8_t>(m.variant % 5);
+            if (m.len > 65535)
+                m.len = 65535;
+        }
+        if (c.truncateAt < -1)
+            c.truncateAt = -1;
+        if (c.zeroPad > 4096)
+            c.zeroPad = static_cast<uint16_t>(c.zeroPad % 4097);
+    };
     return pbtMain(argc, argv, prop);
 }
